@@ -580,6 +580,8 @@ type Specs struct {
 	Lemmas     []*Lemma
 	Impls      []ImplDecl
 	Immutable  map[string]bool // "pkg.T.f"
+	ChanInvs   map[string][]*Clause // "pkg.T" -> invariant over e (every value sent on a chan T satisfies it)
+	FuncFields map[string]string // "pkg.T.f" -> funcspec name: the field holds a function satisfying that funcspec
 	Volatile   map[string]bool // "pkg.T.f": fields accessed atomically / concurrently: exempt from frames, havoc'd by every effectful call
 	ObjInvs    map[string][]*Clause
 	FilesRead  []string
@@ -588,11 +590,11 @@ type Specs struct {
 
 func newSpecs() *Specs {
 	return &Specs{Funcs: map[string]*FuncContract{}, Ifaces: map[string]*FuncContract{}, FuncSpecs: map[string]*FuncContract{},
-		Ghosts: map[string]*GhostDecl{}, SpecFns: map[string]*SpecFn{}, Immutable: map[string]bool{}, Volatile: map[string]bool{}, ObjInvs: map[string][]*Clause{}}
+		Ghosts: map[string]*GhostDecl{}, SpecFns: map[string]*SpecFn{}, ChanInvs: map[string][]*Clause{}, FuncFields: map[string]string{}, Immutable: map[string]bool{}, Volatile: map[string]bool{}, ObjInvs: map[string][]*Clause{}}
 }
 
 var itemKeywords = map[string]bool{"func": true, "iface": true, "impl": true, "monitor": true, "funcspec": true, "ghost": true,
-	"spec": true, "axiom": true, "lemma": true, "immutable": true, "extern": true, "volatile": true}
+	"spec": true, "axiom": true, "lemma": true, "immutable": true, "extern": true, "volatile": true, "funcfield": true, "chaninv": true}
 var clauseKeywords = map[string]bool{"facet": true, "requires": true, "ensures": true, "modifies": true, "panics-when": true,
 	"inline": true, "trusted": true, "loop": true, "param": true, "arith": true, "invariant": true, "implements": true,
 	"guards": true, "havocs": true, "pure": true, "names": true, "results": true, "opt": true, "safety": true, "attr": true, "cond": true, "monotone": true}
@@ -778,6 +780,27 @@ func (sp *Specs) parseFile(path, pkgName string, lines []string) error {
 				}
 				sp.Immutable[pkgName+"."+strings.TrimPrefix(it[1:i], "*")+"."+it[i+2:]] = true
 			}
+		case "chaninv":
+			// chaninv (T) [label] expr over e
+			i := strings.Index(r, ")")
+			if !strings.HasPrefix(r, "(") || i < 0 {
+				return fail(ln, fmt.Errorf("want: chaninv (T) expr"))
+			}
+			props, label, body := parseLabel(r[i+1:])
+			ex, err := parseExpr(body)
+			if err != nil {
+				return fail(ln, err)
+			}
+			k := pkgName + "." + strings.TrimPrefix(r[1:i], "*")
+			sp.ChanInvs[k] = append(sp.ChanInvs[k], &Clause{Kind: "invariant", Props: props, Label: label, Text: body, E: ex})
+		case "funcfield":
+			// funcfield (T).f funcspecName
+			fs := strings.Fields(r)
+			if len(fs) != 2 || !strings.HasPrefix(fs[0], "(") || !strings.Contains(fs[0], ").") {
+				return fail(ln, fmt.Errorf("want: funcfield (T).f funcspec"))
+			}
+			i := strings.Index(fs[0], ").")
+			sp.FuncFields[pkgName+"."+strings.TrimPrefix(fs[0][1:i], "*")+"."+fs[0][i+2:]] = fs[1]
 		case "volatile":
 			for _, it := range strings.Split(r, ",") {
 				it = strings.TrimSpace(it)
